@@ -2,6 +2,7 @@
 import ast
 
 from ..core import astutil as A
+from ..core import match as M
 from ..core.cfg import cfg_of
 from ..core.model import dotted
 
@@ -34,6 +35,13 @@ def mutation_nodes(fn):
 
 def gen_bumps(fn):
     return [n for n in A.body_walk(fn.node) if isinstance(n, ast.Call) and dotted(n.func) == "object.__setattr__" and len(n.args) == 3 and A.try_literal(n.args[1]) == "_reuse_pt"]
+
+
+def _else_rolls_back(loop, ep):
+    """the loop's else-branch (no alternative could be forced) rolls back to the entry point `ep`, then returns False"""
+    rb = [i for i, s in enumerate(loop.orelse) if M.has(s, "self.rollback($ep)", {"ep": ep})]
+    rf = [i for i, s in enumerate(loop.orelse) if M.pat("return False").matches(s) is not None]
+    return bool(rb) and bool(rf) and min(rb) < max(rf)
 
 
 def run(ctx):
@@ -81,20 +89,24 @@ def run(ctx):
         m = K.methods[name]
         handlers = [h for n in A.body_walk(m.node) if isinstance(n, ast.Try) for h in n.handlers if h.type is not None and "Unchangable" in A.unparse(h.type)]
         ctx.check("R3", m, len(handlers) >= 2, f"handles-unchangable:{name}", f"{name} handles Unchangable on both the direct and the dependency-driven path")
+        # the entry point variable, by role (not by spelling): a local taken from the change counter and/or handed to self.rollback
+        ep_names = sorted({mm["ep"] for mm in M.find(m.node, "$ep = self.changes_count()")}
+                          | {c.args[0].id for c in A.calls(m.node) if A.unparse(c.func) == "self.rollback" and c.args and isinstance(c.args[0], ast.Name)})
         for h in handlers:
             rb = [c for s in h.body for c in A.calls(s) if A.unparse(c.func) == "self.rollback"]
-            ok = len(rb) == 1 and rb[0].args and A.unparse(rb[0].args[0]) == "entry_point"
+            ok = len(rb) == 1 and len(rb[0].args) >= 1 and isinstance(rb[0].args[0], ast.Name) and rb[0].args[0].id in ep_names
             ctx.check("R3", m, ok, f"refusal-rolls-back:{name}@{h.lineno - m.node.lineno}", f"{name}: a refused change rolls back to the entry point",
                       f"PackageWrapper.{name}: the Unchangable handler does not roll back to the entry point: a multi-flag request whose first flag was accepted and second refused returns False but leaves the first flag changed", node=h)
-        eps = [st for t, v, st in A.assignments(m.node, "entry_point")]
+        eps = [(v, st) for ep in ep_names for t, v, st in A.assignments(m.node, ep)]
         muts = mutation_nodes(m)
-        ctx.check("R3", m, bool(eps) and all(A.unparse(st.value) == "self.changes_count()" for st in eps), f"entry-point-source:{name}", "the entry point is the change counter")
+        is_counter = M.pat("self.changes_count()")
+        ctx.check("R3", m, bool(eps) and all(is_counter.matches(v) is not None for v, st in eps), f"entry-point-source:{name}", "the entry point is the change counter")
         for mu in muts:
-            before = [st for st in eps if st.lineno < mu.lineno]
+            before = [st for v, st in eps if st.lineno < mu.lineno]
             ctx.check("R3", m, bool(before), f"entry-point-before-mutation:{name}", "the entry point is taken before the first mutation", node=mu)
         # refused dependency-driven path: for/else -> rollback + return False
         fe = [n for n in A.body_walk(m.node) if isinstance(n, ast.For) and n.orelse]
-        ok = any("self.rollback(entry_point)" in A.unparse(s) for n in fe for s in n.orelse) and any(A.unparse(s) == "return False" for n in fe for s in n.orelse)
+        ok = any(_else_rolls_back(n, ep) for n in fe for ep in ep_names)
         ctx.check("R3", m, ok, f"unforceable-rolls-back:{name}", f"{name}: when no alternative can be forced the partial changes are rolled back and False returned")
     ctx.floor("R3", 12)
 
@@ -103,8 +115,11 @@ def run(ctx):
     ifs = [n for n in A.body_walk(gw.node) if isinstance(n, ast.If)]
     ctx.require(ifs, "_getattr_wrapped: staleness test not found")
     from ..core.mirror import canon
-    want = canon(ast.parse("o is None or o[0] != self._reuse_pt", mode="eval").body)
-    ctx.check("R4", gw, canon(ifs[0].test) == want, "stale-test", "recompute iff nothing is cached or the cached generation differs from the current one", f"staleness test is `{A.unparse(ifs[0].test)}`")
+    # the cached entry is the local read from the per-attribute cache (whatever it is called)
+    ce = M.one(gw.node, "$o = self._cached_wrapped.get(attr)")
+    o = ce["o"] if ce else None
+    want = canon(ast.parse(f"{o} is None or {o}[0] != self._reuse_pt", mode="eval").body) if o else None
+    ctx.check("R4", gw, o is not None and canon(ifs[0].test) == want, "stale-test", "recompute iff nothing is cached or the cached generation differs from the current one", f"staleness test is `{A.unparse(ifs[0].test)}`")
     calls = [c for s in ifs[0].body for c in A.calls(s) if "_wrapped_attr" in A.unparse(c.func)]
     ok = len(calls) == 1 and [A.unparse(a) for a in calls[0].args] == ["getattr(self._raw_pkg, attr)", "self._configurable"]
     ctx.check("R4", gw, ok, "recompute-inputs", "recomputation uses the raw package attribute and the live USE set", f"recomputation call is `{A.unparse(calls[0]) if calls else None}`")
